@@ -20,3 +20,25 @@ Definition jit_alloc (okv okh : nat -> bool) (dual : bool) (c : JitModel.config)
     | _ => let '(st2, r2) := JitVmModel.alloc_vm c st size false in (st2, r2, s1, kv1, kh1)
     end.
 
+
+
+(* JitAllocator::release: C09's span bookkeeping; when the block became empty and is deleted (C09: deleted = true) its views and
+   its record go away (C15's VDel on the handle that created the block; `bm` maps C09 block ids to C15 handles) *)
+Definition jit_release (okv okh : nat -> bool) (bm : list (Z * nat)) (c : JitModel.config) (st : JitModel.state) (s : vms) (id off : Z) (kv kh : nat)
+  : JitModel.state * JitModel.result * vms :=
+  let '(st', r) := JitModel.release c st id off in
+  match r with
+  | JitModel.RRelease JitModel.Ok bid true =>
+      match find (fun p => fst p =? bid) bm with
+      | Some (_, h) => let '(_, s1, _, _) := vm_step okv okh (VDel h) s kv kh in (st', r, s1)
+      | None => (st', r, s)
+      end
+  | _ => (st', r, s)
+  end.
+
+(* JitAllocator::shrink: a new size of 0 is a release (the block may be deleted, then its views go away as in jit_release); any
+   other size only trims the span inside its block - the views and the block records are not touched *)
+Definition jit_shrink (okv okh : nat -> bool) (bm : list (Z * nat)) (c : JitModel.config) (st : JitModel.state) (s : vms) (id off ns : Z) (kv kh : nat)
+  : JitModel.state * JitModel.result * vms :=
+  let '(st', r) := JitModel.shrink c st id off ns in
+  if ns =? 0 then let '(_, _, s') := jit_release okv okh bm c st s id off kv kh in (st', r, s') else (st', r, s).
